@@ -11,6 +11,7 @@ import PlatypusModel.Model.Grid
 import PlatypusModel.Model.Run
 import PlatypusModel.Model.GenStep
 import PlatypusModel.Model.Restart
+import PlatypusModel.Model.TimeCont
 import PlatypusModel.Model.HVFit
 import PlatypusModel.Model.Survival
 import PlatypusModel.Model.SPEA2
@@ -277,6 +278,16 @@ def opsRun (op : String) : Option (P String) :=
           let s' := rStep c sizes msizes (if a = 0 then none else some (a - 1)) s
           goR rest s' (s!"{s'.nfe}:{s'.pos}:{s'.mpos}:{s'.pop}:{s'.popSize}" :: acc)
       pure (" ".intercalate (goR archs { nfe := 0, pos := 0, mpos := 0, pop := 0, popSize := popSize } []))
+  | "tcont" => some do   -- scheduling + decision of adaptive time continuation (Model/TimeCont.lean): per iteration "checked restart"
+      let window ← nat; let maxW ← nat; let ratio ← nat; let minP ← nat; let maxP ← nat; let evs ← list nat
+      let c : ExtCfg := { window := window, maxWindow := maxW, ratio := ratio, minPop := minP, maxPop := maxP }
+      let rec goT : List Nat → ExtState → List String → List String
+        | flag :: p :: a :: rest, e, acc =>
+          let e0 := if flag = 1 then startRun e else e
+          let r := postStep c e0 p a
+          goT rest r.1 (s!"{if r.2.1 then 1 else 0}{if r.2.2 then 1 else 0}" :: acc)
+        | _, e, acc => (s!"{e.iteration}:{e.lastInvocation}:{e.lastRestart}" :: acc).reverse
+      pure (" ".intercalate (goT evs { iteration := 0, lastInvocation := 0, lastRestart := 0 } []))
   | "evalall" => some do
       let flags ← list bool
       let (calls, inc) := evalAll flags
